@@ -10,7 +10,7 @@ PRIM_ARRAYS = {"uima.cas.IntegerArray": "int", "uima.cas.StringArray": "str", "u
                "uima.cas.DoubleArray": "float", "uima.cas.FloatArray": "float", "uima.cas.LongArray": "int",
                "uima.cas.ShortArray": "int", "uima.cas.ByteArray": "byte"}
 PRIM_LISTS = {"uima.cas.IntegerList": "int", "uima.cas.FloatList": "float", "uima.cas.StringList": "str"}
-TYPE_POOL = ["x.A", "x.B", "x.y.C", "a.type.Token", "b.type.Token", "q.cas.Item", "q.xmi.Item", "q.tcas.Span", "Plain",
+TYPE_POOL = ["x.A", "x.B", "x.y.C", "a.type.Token", "b.type.Token", "c.type0.Tok", "q.cas.Item", "q.xmi.Item", "q.tcas.Span", "Plain",
              "NoNs", "de.tudarmstadt.Deep", "x.Str"]
 TEXTS = ["The quick brown fox", "a\U0001f600b\U0001f600c def ghi", "", "日本語のテキスト and more", "x" * 40]
 INT_EDGE = [0, 1, -1, 2 ** 31 - 1, -2 ** 31, 2 ** 63 - 1, -2 ** 63, 42]
